@@ -147,6 +147,8 @@ type WalkOpts struct {
 	// use the chooser; DevBudget bounds its costly (ChooseDev) choices per path (<0: unbounded).
 	Host      func(c *explore.Chooser, step int, m *Machine, storer variable.Storer)
 	DevBudget int
+	// Setup, if set, registers further handlers on every fresh real runner.
+	Setup func(r *Real, log *[]string)
 	// Step, if set, is called after every compared step for additional oracles.
 	Step func(m *Machine, r *Real, mo *Obs, ro RealObs) string
 }
@@ -296,6 +298,9 @@ func Walk(p *Program, srcs []string, hs *HostSpec, o WalkOpts) (*Mismatch, WalkS
 			}
 			x.r = r
 			hs.Install(r.DR, &x.log)
+			if o.Setup != nil {
+				o.Setup(r, &x.log)
+			}
 			return x, nil, ""
 		}
 		x, err, pan := newRun()
@@ -475,4 +480,100 @@ func Walk(p *Program, srcs []string, hs *HostSpec, o WalkOpts) (*Mismatch, WalkS
 		st.Outcomes[strings.Join(trace, "→")] = struct{}{}
 	})
 	return found, st
+}
+
+// FreeOpts configure FreeWalk.
+type FreeOpts struct {
+	MaxSteps  int
+	Seed      string
+	Setup     func(r *Real, log *[]string) // register handlers
+	NewStorer func() variable.Storer
+	AfterEnd  int // further calls after the first end marker
+	// ErrorsStop: stop a path at the first error (else continue up to MaxSteps).
+	ErrorsStop bool
+}
+
+// FreeResult is what FreeWalk observed.
+type FreeResult struct {
+	LoadErr   error
+	LoadPanic string
+	Panic     string // first panic, with its path
+	PanicPath []int
+	PanicArgs []int
+	Traces    map[string]string // path (choices) -> trace of observations
+	Paths     int64
+	Steps     int64
+	Errors    int64
+}
+
+// FreeWalk drives the real runner alone along every choice sequence (choices taken from the option
+// counts the runner itself reports), recording the trace of each path. Only "returns without
+// panicking" is checked here; callers compare the traces.
+func FreeWalk(srcs []string, o FreeOpts) *FreeResult {
+	res := &FreeResult{Traces: map[string]string{}}
+	seed := o.Seed
+	if seed == "" {
+		seed = "abc"
+	}
+	explore.Run(explore.Options{Budget: -1}, func(c *explore.Chooser) {
+		if res.Panic != "" || res.LoadErr != nil || res.LoadPanic != "" {
+			c.Stop()
+			return
+		}
+		var storer variable.Storer
+		if o.NewStorer != nil {
+			storer = o.NewStorer()
+		}
+		r, err, pan := NewReal(srcs, seed, storer)
+		if pan != "" {
+			res.LoadPanic = pan
+			c.Stop()
+			return
+		}
+		if err != nil {
+			res.LoadErr = err
+			c.Stop()
+			return
+		}
+		var log []string
+		if o.Setup != nil {
+			o.Setup(r, &log)
+		}
+		res.Paths++
+		var path, args []int
+		var trace []string
+		arg := 0
+		ended := 0
+		for step := 0; step < o.MaxSteps; step++ {
+			args = append(args, arg)
+			ro := r.Next(arg)
+			res.Steps++
+			if ro.Panic != "" {
+				res.Panic = fmt.Sprintf("Next(%d) panicked at step %d: %s; trace so far %v", arg, step, ro.Panic, trace)
+				res.PanicPath, res.PanicArgs = append([]int{}, path...), append([]int{}, args...)
+				c.Stop()
+				return
+			}
+			trace = append(trace, ro.String())
+			arg = 0
+			switch ro.K {
+			case OOptions:
+				arg = c.Choose(len(ro.Opts), "opt")
+				path = append(path, arg)
+			case OEnd:
+				ended++
+				if ended > o.AfterEnd {
+					step = o.MaxSteps
+				}
+			case OError:
+				res.Errors++
+				if o.ErrorsStop {
+					step = o.MaxSteps
+				}
+			}
+		}
+		key := fmt.Sprint(path)
+		res.Traces[key] = strings.Join(trace, " → ") + " | log=" + strings.Join(log, ";")
+	})
+	return res
 }
